@@ -96,22 +96,44 @@ func (g *condGen) cond(depth int) (cexpr, string) {
 	}
 	kind := []string{"num", "num", "text", "int"}[rng.Intn(4)]
 	l, ls := g.operand(kind)
-	switch x := rng.Intn(10); {
+	switch x := rng.Intn(11); {
 	case x < 6:
 		op := []string{"=", "<>", "<", "<=", ">", ">="}[rng.Intn(6)]
 		rr, rs := g.operand(kind)
 		return cexpr{"k": "cmp", "op": op, "l": l, "r": rr}, ls + " " + op + " " + rs
 	case x < 7:
+		if rng.Intn(3) == 0 {
+			return cexpr{"k": "not", "l": cexpr{"k": "isnull", "l": l}}, ls + " IS NOT NULL"
+		}
 		return cexpr{"k": "isnull", "l": l}, ls + " IS NULL"
 	case x < 9:
-		a, as := g.operand(kind)
-		b, bs := g.operand(kind)
+		a, as := g.bound(kind)
+		b, bs := g.bound(kind)
+		if rng.Intn(3) == 0 {
+			return cexpr{"k": "not", "l": cexpr{"k": "in", "l": l, "r": a, "r2": b}}, ls + " NOT IN (" + as + ", " + bs + ")"
+		}
 		return cexpr{"k": "in", "l": l, "r": a, "r2": b}, ls + " IN (" + as + ", " + bs + ")"
 	default:
-		a, as := g.operand(kind)
-		b, bs := g.operand(kind)
+		a, as := g.bound(kind)
+		b, bs := g.bound(kind)
+		if rng.Intn(2) == 0 {
+			return cexpr{"k": "not", "l": cexpr{"k": "between", "l": l, "r": a, "r2": b}}, ls + " NOT BETWEEN " + as + " AND " + bs
+		}
 		return cexpr{"k": "between", "l": l, "r": a, "r2": b}, ls + " BETWEEN " + as + " AND " + bs
 	}
+}
+
+// bound is an operand of IN / BETWEEN: more often a NULL literal than elsewhere, so that the three-valued
+// cases (UNKNOWN AND FALSE, UNKNOWN OR TRUE) are reached
+func (g *condGen) bound(kind string) (cexpr, string) {
+	if g.r.Rand.Intn(5) == 0 {
+		c, s := litNull()
+		pc := &rcell{}
+		*pc = c
+		g.lits = append(g.lits, pc)
+		return cexpr{"k": "lit", "v": pc}, s
+	}
+	return g.operand(kind)
 }
 
 func seqInts(from, to int) []int {
@@ -169,6 +191,32 @@ func runC03(r *core.Run) {
 			}
 			rankStringsL(g.lits, t.Rows, res)
 			evs = append(evs, relEvent{SQL: sql, Sig: "select:filter", CPU: cpu, Ev: map[string]interface{}{"kind": "filter", "in": cellsJSON(t.Rows), "cond": ce, "proj": proj, "res": cellsJSON(res)}})
+		case kind < 5 && rng.Intn(2) == 0: // the three-valued result of a condition, row by row, in the select list
+			g := &condGen{r: r, names: []string{"id", "a", "b", "k"}, kinds: []string{"int", "num", "text", "int"}}
+			ce, cs := g.cond(2)
+			sql := "SELECT (" + cs + ") AS c FROM t"
+			x := newRelRun(r, cpu, t)
+			res, _, e := x.query(sql + ";")
+			x.close()
+			if e != "" {
+				fail("select:truth", sql, e)
+				continue
+			}
+			tv := []string{}
+			for _, row := range res {
+				switch {
+				case row[0].N:
+					tv = append(tv, "U")
+				case row[0].T == "true":
+					tv = append(tv, "T")
+				case row[0].T == "false":
+					tv = append(tv, "F")
+				default:
+					tv = append(tv, "?"+row[0].T)
+				}
+			}
+			rankStringsL(g.lits, t.Rows, nil)
+			evs = append(evs, relEvent{SQL: sql, Sig: "select:truth", CPU: cpu, Ev: map[string]interface{}{"kind": "truth", "in": cellsJSON(t.Rows), "cond": ce, "res": tv}})
 		case kind < 5: // nested: sub-query or CTE
 			g := &condGen{r: r, names: []string{"id", "a", "b", "k"}, kinds: []string{"int", "num", "text", "int"}}
 			c1, s1 := g.cond(1)
